@@ -74,6 +74,12 @@ type Model struct {
 	Problems []string
 	TopOuts  map[string]interface{}
 	invByKey map[string]*StageInvocation
+	// Stage call paths inside a mapped pipeline call with an empty / null
+	// source whose bindings do not depend on that dimension (the runtime
+	// executes them once; the property says nothing of such a call runs).
+	IndepOfEmpty map[string]int
+	// Values named by pipeline-level retain declarations.
+	Retained []interface{}
 	// Number of (path, fork context) combinations that were merged into an
 	// existing invocation because the stage does not depend on the
 	// differing map dimensions.
@@ -317,6 +323,9 @@ type callCtx struct {
 	deps     DepSet // context dependencies (enclosing disable conditions / map sources / preflights)
 	dims     DimSet // map dimensions the enclosing disable conditions depend on
 	coords   []coord
+	// phantom: evaluating the body of a mapped call that has no forks, to
+	// find the stages that do not depend on the (empty) dimension.
+	phantom DimSet
 }
 
 // coord is the position of a pipeline instance along one map dimension.
@@ -420,6 +429,7 @@ func (m *Model) Run() {
 		}
 	}
 	m.invByKey = map[string]*StageInvocation{}
+	m.IndepOfEmpty = map[string]int{}
 	m.TopOuts, _, _ = m.evalPipeline(pl, inputs, nil, nil, callCtx{path: pl.Name})
 }
 
@@ -508,6 +518,12 @@ func (m *Model) evalPipeline(pl *Pipeline, inputs map[string]interface{}, inputD
 			result[k] = nil
 		}
 	}
+	if len(ctx.phantom) == 0 && !ctx.disabled {
+		for _, re := range pl.Retain {
+			v, _ := m.evalExp(re, inputs, selfTypes, calls, callTypes)
+			m.Retained = append(m.Retained, v)
+		}
+	}
 	return result, resDeps, resDims
 }
 
@@ -569,7 +585,11 @@ func (m *Model) evalCall(pl *Pipeline, c *Call, inputs map[string]interface{}, i
 			splitIds = append(splitIds, b.Id)
 			// converted per element below
 			args[b.Id] = v
-			ctxDeps = ctxDeps.addAll(d, "mapsrc@"+thisDim)
+			if len(splitIds) == 1 {
+				// Only the first ("master") split source determines the
+				// forks of nested calls which do not consume the others.
+				ctxDeps = ctxDeps.addAll(d, "mapsrc@"+thisDim)
+			}
 			srcDims = srcDims.addAll(dm)
 			dm = DimSet{thisDim: true}.addAll(dm)
 		} else {
@@ -645,6 +665,22 @@ func (m *Model) evalCall(pl *Pipeline, c *Call, inputs map[string]interface{}, i
 			for _, o := range outs {
 				dmOut[o.Name] = invDims
 			}
+			if len(sub.phantom) > 0 {
+				indep := true
+				for d := range sub.phantom {
+					if invDims[d] {
+						indep = false
+					}
+				}
+				if indep {
+					m.IndepOfEmpty[path]++
+				}
+				r := map[string]interface{}{}
+				for _, o := range outs {
+					r[o.Name] = Unknown{"inside a mapped call without forks"}
+				}
+				return r, nil, dmOut
+			}
 			if prev := m.invByKey[key]; prev != nil {
 				m.Merged++
 				if prev.Args != nil && Render(mapAny(prev.Args)) != Render(mapAny(a)) {
@@ -715,6 +751,9 @@ func (m *Model) evalCall(pl *Pipeline, c *Call, inputs map[string]interface{}, i
 		sub.path = path
 		sub.deps = ctxDeps
 		sub.dims = ctxDims
+		if len(sub.phantom) == 0 {
+			sub.phantom = ctx.phantom
+		}
 		return m.evalPipeline(sp, a, argDeps, argDims, sub)
 	}
 
@@ -722,7 +761,7 @@ func (m *Model) evalCall(pl *Pipeline, c *Call, inputs map[string]interface{}, i
 		for _, o := range outs {
 			outTypes[o.Name] = o.Type
 		}
-		r, d, dm := invoke(args, callCtx{context: ctx.context, disabled: disabled, coords: ctx.coords})
+		r, d, dm := invoke(args, callCtx{context: ctx.context, disabled: disabled, coords: ctx.coords, phantom: ctx.phantom})
 		return r, outTypes, d, dm
 	}
 	// Map call.
@@ -780,6 +819,25 @@ func (m *Model) evalCall(pl *Pipeline, c *Call, inputs map[string]interface{}, i
 		}
 	}
 	result := map[string]interface{}{}
+	if len(ctx.phantom) > 0 || ((srcNull || n <= 0) && !disabled && !srcUnknown && !disabledUnknown && !isStage) {
+		// Evaluate the body once with unknown elements to classify the
+		// stages in it.
+		ph := DimSet{thisDim: true}.addAll(ctx.phantom)
+		a := map[string]interface{}{}
+		for k, v := range args {
+			a[k] = v
+		}
+		for _, id := range splitIds {
+			a[id] = Unknown{"element of an empty collection"}
+		}
+		invoke(a, callCtx{context: ctx.context + c.Name() + "[]", coords: ctx.coords, phantom: ph})
+		if len(ctx.phantom) > 0 {
+			for _, o := range outs {
+				result[o.Name] = Unknown{"inside a mapped call without forks"}
+			}
+			return result, outTypes, nil, nil
+		}
+	}
 	if srcUnknown || disabledUnknown {
 		for _, o := range outs {
 			result[o.Name] = Unknown{"split source unknown"}
